@@ -141,9 +141,10 @@ def R.skipLoopF (r : R) : Nat → Nat → Nat → Int × Nat × Nat
 
 def R.skipLoop (r : R) (cur : Nat) (left : Nat) : Int × Nat × Nat := r.skipLoopF left cur left
 
-/-- `bufr_skip_bits(bufr, n, &err)`: no initial bounds test (as in the C). -/
+/-- `bufr_skip_bits(bufr, n, &err)`: like `bufr_getbits`, refused when the cursor already stands at the end. -/
 def R.skipBits (r : R) (n : Nat) : Int × R :=
   if n = 0 then (0, r)
+  else if r.cur ≥ r.maxDataLen then (-1, r)
   else
     let t := min n (8 - r.bitno)
     let left := n - t
